@@ -132,6 +132,14 @@ type builder struct {
 	Ids   []string `json:"ids"`
 }
 
+// tkeyBuilder adapts scoredb.ToKey / scoredb.AppendKeys (plain functions on byte slices) to the KeyBuilder interface
+type tkeyBuilder []byte
+
+func (b tkeyBuilder) Append(keys ...interface{}) containerdb.KeyBuilder {
+	return tkeyBuilder(scoredb.AppendKeys(b, keys...))
+}
+func (b tkeyBuilder) Build() []byte { return b }
+
 // newBuilder calls the real constructor that the abstract builder stands for.
 func newBuilder(b builder, rawGiven bool, rnd *rand.Rand) (containerdb.KeyBuilder, string) {
 	keys, names := typedAll(b.Parts, rnd)
@@ -144,6 +152,8 @@ func newBuilder(b builder, rawGiven bool, rnd *rand.Rand) (containerdb.KeyBuilde
 	case "phash":
 		rv, rn := typed(b.Raw.bytes(), rnd)
 		return containerdb.ToKey(containerdb.PrefixedHashBuilder, append([]interface{}{rv}, keys...)...), "ToKey(PrefixedHash," + rn + ";" + names + ")"
+	case "tkey":
+		return tkeyBuilder(scoredb.ToKey(b.Raw.bytes()[0], keys...)), "scoredb.ToKey(" + names + ")"
 	case "rlp":
 		return containerdb.ToKey(containerdb.RLPBuilder, keys...), "ToKey(RLP," + names + ")"
 	case "raw":
@@ -329,12 +339,18 @@ type cstep struct {
 	Via   bool            `json:"via"`
 	Kb    builder         `json:"kb"`
 	Api   string          `json:"api"`
+	On    string          `json:"on"`
 	Res   json.RawMessage `json:"res"`
 	Store []kv            `json:"store"`
 }
 
 // a store that remembers which keys were ever touched, so that its contents can be enumerated
+type snapFn func(k []byte) ([]byte, error)
+
+func (f snapFn) GetValue(k []byte) ([]byte, error) { return f(k) }
+
 type recStore struct {
+	snapshot func() containerdb.BytesStoreSnapshot // an immutable view of the current contents
 	get     func(k []byte) ([]byte, error)
 	set     func(k, v []byte) ([]byte, error)
 	del     func(k []byte) ([]byte, error)
@@ -354,6 +370,13 @@ func (s *recStore) DeleteValue(k []byte) ([]byte, error) {
 func newMapStore() *recStore {
 	m := map[string][]byte{}
 	return &recStore{
+		snapshot: func() containerdb.BytesStoreSnapshot {
+			c := map[string][]byte{}
+			for k, v := range m {
+				c[k] = v
+			}
+			return snapFn(func(k []byte) ([]byte, error) { return c[string(k)], nil })
+		},
 		get: func(k []byte) ([]byte, error) { return m[string(k)], nil },
 		set: func(k, v []byte) ([]byte, error) {
 			o := m[string(k)]
@@ -375,7 +398,8 @@ func newAccountStores() (*recStore, *recStore) {
 	ws := state.NewWorldState(db.NewMapDB(), nil, nil, nil, nil)
 	mk := func(id byte) *recStore {
 		as := ws.GetAccountState(append([]byte{id}, bytes.Repeat([]byte{0x77}, 19)...))
-		return &recStore{get: as.GetValue, set: as.SetValue, del: as.DeleteValue, touched: map[string]bool{}}
+		return &recStore{get: as.GetValue, set: as.SetValue, del: as.DeleteValue, touched: map[string]bool{},
+			snapshot: func() containerdb.BytesStoreSnapshot { return as.GetSnapshot() }}
 	}
 	return mk(1), mk(2)
 }
@@ -383,6 +407,7 @@ func newAccountStores() (*recStore, *recStore) {
 func newTrieStore() *recStore {
 	var tr trie.Mutable = trie_manager.NewMutable(db.NewMapDB(), nil)
 	return &recStore{
+		snapshot: func() containerdb.BytesStoreSnapshot { ss := tr.GetSnapshot(); return snapFn(ss.Get) },
 		get:     func(k []byte) ([]byte, error) { return tr.Get(k) },
 		set:     func(k, v []byte) ([]byte, error) { return tr.Set(k, v) },
 		del:     func(k []byte) ([]byte, error) { return tr.Delete(k) },
@@ -401,12 +426,16 @@ func concVal(v int, kind int, salt byte) interface{} {
 		return 1000*int(salt) + v + 300
 	case 3:
 		return common.MustNewAddress(append([]byte{byte(v % 2)}, bytes.Repeat([]byte{salt, byte(v)}, 10)...))
-	default:
+	case 4:
 		return big.NewInt(int64(v) + int64(salt)<<40)
+	default:
+		return v == 1 // bool: the two abstract values of the model
 	}
 }
 
 type world struct {
+	cur   containerdb.BytesStoreState // the store containers are opened on: the live store or the read-only snapshot
+	snap  containerdb.BytesStoreState
 	st    *recStore
 	rnd   *rand.Rand
 	kind  int
@@ -418,50 +447,56 @@ type world struct {
 }
 
 func (w *world) array(s cstep) *containerdb.ArrayDB {
-	if a, ok := w.arr[s.C]; ok && !w.fresh {
+	if a, ok := w.arr[s.C]; ok && !w.fresh && s.On != "snap" {
 		return a
 	}
 	var a *containerdb.ArrayDB
 	if s.Api == "scoredb" { // the type part is added by scoredb itself
 		keys, _ := typedAll(s.Kb.Parts[1:], w.rnd)
-		a = scoredb.NewArrayDB(w.st, keys...)
+		a = scoredb.NewArrayDB(w.cur, keys...)
 	} else {
 		kb, _ := newBuilder(s.Kb, len(s.Kb.Raw) > 0, w.rnd)
-		a = containerdb.NewArrayDB(w.st, kb)
+		a = containerdb.NewArrayDB(w.cur, kb)
 	}
-	w.arr[s.C] = a
+	if s.On != "snap" {
+		w.arr[s.C] = a
+	}
 	return a
 }
 
 func (w *world) dictdb(s cstep, depth int) *containerdb.DictDB {
-	if d, ok := w.dict[s.C]; ok && !w.fresh {
+	if d, ok := w.dict[s.C]; ok && !w.fresh && s.On != "snap" {
 		return d
 	}
 	var d *containerdb.DictDB
 	if s.Api == "scoredb" {
 		keys, _ := typedAll(s.Kb.Parts[2:], w.rnd)
-		d = scoredb.NewDictDB(w.st, string(s.Kb.Parts[1].bytes()), depth, keys...)
+		d = scoredb.NewDictDB(w.cur, string(s.Kb.Parts[1].bytes()), depth, keys...)
 	} else {
 		kb, _ := newBuilder(s.Kb, len(s.Kb.Raw) > 0, w.rnd)
-		d = containerdb.NewDictDB(w.st, depth, kb)
+		d = containerdb.NewDictDB(w.cur, depth, kb)
 	}
-	w.dict[s.C] = d
+	if s.On != "snap" {
+		w.dict[s.C] = d
+	}
 	return d
 }
 
 func (w *world) vardb(s cstep) *containerdb.VarDB {
-	if v, ok := w.vr[s.C]; ok && !w.fresh {
+	if v, ok := w.vr[s.C]; ok && !w.fresh && s.On != "snap" {
 		return v
 	}
 	var v *containerdb.VarDB
 	if s.Api == "scoredb" {
 		keys, _ := typedAll(s.Kb.Parts[1:], w.rnd)
-		v = scoredb.NewVarDB(w.st, keys...)
+		v = scoredb.NewVarDB(w.cur, keys...)
 	} else {
 		kb, _ := newBuilder(s.Kb, len(s.Kb.Raw) > 0, w.rnd)
-		v = containerdb.NewVarDB(w.st, kb)
+		v = containerdb.NewVarDB(w.cur, kb)
 	}
-	w.vr[s.C] = v
+	if s.On != "snap" {
+		w.vr[s.C] = v
+	}
 	return v
 }
 
@@ -479,6 +514,43 @@ func (w *world) abs(bs []byte, vals int) int {
 }
 
 
+// absV reads a stored value back through the typed getter that matches the type it was written with
+// (String, Int64/Uint64/BigInt, Address, Bool, Bytes) and returns its abstract value, 0 for nil, -1 if unknown
+func (w *world) absV(v containerdb.Value) int {
+	if v == nil || v.Bytes() == nil {
+		return 0
+	}
+	for a := 1; a <= nVals; a++ {
+		switch c := concVal(a, w.kind, w.salt).(type) {
+		case string:
+			if v.String() == c {
+				return a
+			}
+		case int:
+			if v.Int64() == int64(c) && v.Uint64() == uint64(c) && v.BigInt().Cmp(big.NewInt(int64(c))) == 0 && containerdb.Int64Safe(v) == int64(c) {
+				return a
+			}
+		case *common.Address:
+			if ad := v.Address(); ad != nil && ad.Equal(c) {
+				return a
+			}
+		case *big.Int:
+			if v.BigInt().Cmp(c) == 0 && containerdb.BigIntSafe(v).Cmp(c) == 0 {
+				return a
+			}
+		case bool:
+			if a <= 2 && v.Bool() == c {
+				return a
+			}
+		default:
+			if bytes.Equal(v.Bytes(), containerdb.ToBytes(c)) {
+				return a
+			}
+		}
+	}
+	return -1
+}
+
 const nVals = 3
 
 func (w *world) step(s cstep) (string, error) {
@@ -491,7 +563,18 @@ func (w *world) step(s cstep) (string, error) {
 		return `"ok"`
 	}
 	num := func(n int) string { return fmt.Sprintf("%d", n) }
+	w.cur = w.st
+	if s.On == "snap" { // containers opened on the read-only snapshot store
+		w.cur = w.snap
+	}
 	switch s.Op {
+	case "freeze":
+		if w.rnd.Intn(2) == 0 {
+			w.snap = scoredb.NewStateStoreWith(w.st.snapshot())
+		} else {
+			w.snap = containerdb.NewBytesStoreStateWithSnapshot(w.st.snapshot())
+		}
+		return `"ok"`, nil
 	case "put":
 		return errRes(w.array(s).Put(concVal(s.V, w.kind, w.salt))), nil
 	case "pop":
@@ -499,7 +582,7 @@ func (w *world) step(s cstep) (string, error) {
 		if v == nil {
 			return "0", nil
 		}
-		return num(w.abs(v.Bytes(), nVals)), nil
+		return num(w.absV(v)), nil
 	case "aset":
 		return errRes(w.array(s).Set(s.I, concVal(s.V, w.kind, w.salt))), nil
 	case "aget":
@@ -507,7 +590,7 @@ func (w *world) step(s cstep) (string, error) {
 		if v == nil {
 			return "0", nil
 		}
-		return num(w.abs(v.Bytes(), nVals)), nil
+		return num(w.absV(v)), nil
 	case "size":
 		return num(w.array(s).Size()), nil
 	case "dset", "ddel", "dget":
@@ -531,7 +614,7 @@ func (w *world) step(s cstep) (string, error) {
 			if v == nil {
 				return "0", nil
 			}
-			return num(w.abs(v.Bytes(), nVals)), nil
+			return num(w.absV(v)), nil
 		}
 	case "getdb":
 		d := w.dictdb(s, depthOf[s.C]).GetDB(keys(s.Ks)...)
@@ -549,9 +632,9 @@ func (w *world) step(s cstep) (string, error) {
 		if v == nil {
 			return "0", nil
 		}
-		return num(w.abs(v.Bytes(), nVals)), nil
+		return num(w.absV(v)), nil
 	case "vget":
-		return num(w.abs(w.vardb(s).Bytes(), nVals)), nil
+		return num(w.absV(w.vardb(s))), nil
 	}
 	return "", fmt.Errorf("unknown op %s", s.Op)
 }
@@ -603,7 +686,7 @@ func (w *world) compareStore(pred []kv) string {
 }
 
 func runContainers(steps []cstep, rnd *rand.Rand) (string, string) {
-	w := &world{rnd: rnd, kind: rnd.Intn(5), salt: byte(rnd.Intn(256)), fresh: rnd.Intn(2) == 0,
+	w := &world{rnd: rnd, kind: rnd.Intn(6), salt: byte(rnd.Intn(256)), fresh: rnd.Intn(2) == 0,
 		arr: map[string]*containerdb.ArrayDB{}, dict: map[string]*containerdb.DictDB{}, vr: map[string]*containerdb.VarDB{}}
 	var neighbour *world
 	switch rnd.Intn(3) {
@@ -614,11 +697,11 @@ func runContainers(steps []cstep, rnd *rand.Rand) (string, string) {
 	default: // a contract account of a real world state, next to another contract doing the same calls
 		var st2 *recStore
 		w.st, st2 = newAccountStores()
-		neighbour = &world{st: st2, rnd: rnd, kind: (w.kind + 1) % 5, salt: w.salt + 1, fresh: true,
+		neighbour = &world{st: st2, rnd: rnd, kind: (w.kind + 1) % 6, salt: w.salt + 1, fresh: true,
 			arr: map[string]*containerdb.ArrayDB{}, dict: map[string]*containerdb.DictDB{}, vr: map[string]*containerdb.VarDB{}}
 	}
 	for i, s := range steps {
-		if neighbour != nil && rnd.Intn(2) == 0 {
+		if neighbour != nil && s.On != "snap" && s.Op != "freeze" && rnd.Intn(2) == 0 {
 			neighbour.step(s) // same containers, other contract, other values: must not show up in this contract's store
 		}
 		got, err := w.step(s)
